@@ -363,5 +363,5 @@ func predLog(c LogCase, o *evid.Obs) error {
 }
 
 func addLog(r *evid.Run) {
-	evid.Add(r, evid.Prop[LogCase]{Name: "log", Quick: 6000, Thorough: 20000, Gen: genLog, Pred: predLog})
+	evid.Add(r, evid.Prop[LogCase]{Name: "log", Quick: 6000, Thorough: 50000, Gen: genLog, Pred: predLog})
 }
